@@ -805,8 +805,86 @@ struct TwinJ {
     ctx: Ctx,
     direct: JuraServer,
     json: JuraServer,
+    /// third twin: the shipped HTTP client `jurav1_client::Client` over the simulated transport
+    #[cfg(shadow_http)]
+    hc: Option<HttpTwinJ>,
     bts: Vec<u64>,
     next_tag: u64,
+}
+
+#[cfg(shadow_http)]
+struct HttpTwinJ {
+    client: crate::threads::shadow_jura::jurav1_client::Client,
+    data: actix_web::web::Data<crate::threads::shadow_jura::jurav1_server::JuraState>,
+}
+
+#[cfg(shadow_http)]
+impl Drop for HttpTwinJ {
+    fn drop(&mut self) {
+        crate::simhttp::uninstall();
+    }
+}
+
+#[cfg(shadow_http)]
+impl HttpTwinJ {
+    fn new(single: bool, datasets: &[DatasetSpec]) -> Option<Self> {
+        use crate::threads::shadow_jura as sj;
+        crate::simhttp::uninstall();
+        let _ = crate::simhttp::take_log();
+        if !datasets.iter().all(|d| url_safe(&d.name)) {
+            return None;
+        }
+        let state = if single {
+            sj::AppState::single(&datasets[0].name, datasets[0].build())
+        } else {
+            let mut m = HashMap::new();
+            for d in datasets {
+                m.insert(d.name.clone(), d.build());
+            }
+            sj::AppState::create(&mut m)
+        };
+        let mut t = HttpTwinJ { client: sj::jurav1_client::Client::new("http://sim".to_string()), data: actix_web::web::Data::new(<sj::jurav1_server::JuraState as crate::threads::shim::Peek<sj::AppState>>::make(state)) };
+        t.install();
+        Some(t)
+    }
+
+    fn install(&mut self) {
+        use crate::exec::block_on;
+        use crate::threads::shadow_jura as sj;
+        use actix_web::test::{self, TestRequest};
+        let app = block_on(test::init_service(
+            actix_web::App::new()
+                .app_data(self.data.clone())
+                .service(sj::jurav1_server::info)
+                .service(sj::jurav1_server::init)
+                .service(sj::jurav1_server::fetch_quotes)
+                .service(sj::jurav1_server::tick)
+                .service(sj::jurav1_server::insert_order)
+                .service(sj::jurav1_server::delete_order),
+        ));
+        crate::simhttp::install(Box::new(move |method, target, body| {
+            let mut req = if method == "POST" { TestRequest::post() } else { TestRequest::get() }.uri(target);
+            if let Some(b) = body {
+                req = req.insert_header(("content-type", "application/json")).set_payload(b);
+            }
+            match block_on(test::try_call_service(&app, req.to_request())) {
+                Ok(resp) => {
+                    let status = resp.status().as_u16();
+                    let body = block_on(test::read_body(resp));
+                    (status, body.to_vec())
+                }
+                Err(e) => (e.as_response_error().status_code().as_u16(), format!("{e}").into_bytes()),
+            }
+        }));
+    }
+}
+
+fn j_tick_text(has_next: bool, fills: &[rotala::exchange::jura_v1::Fill], orders: &[rotala::exchange::jura_v1::Order]) -> String {
+    format!(
+        "has_next={has_next} fills=[{}] admitted=[{}]",
+        fills.iter().map(crate::e1j_model::fmt_fill).collect::<Vec<_>>().join(","),
+        orders.iter().map(|o| crate::e1j_model::fmt_view(&o.verif_view())).collect::<Vec<_>>().join(",")
+    )
 }
 
 fn digest_j(s: &JuraServer) -> u64 {
@@ -843,8 +921,48 @@ impl TwinJ {
             ctx: Ctx::new(focus, keep_text),
             direct: build_j(case.single, &case.datasets, Path::Direct),
             json: build_j(case.single, &case.datasets, Path::Json),
+            #[cfg(shadow_http)]
+            hc: if case.http_twin { HttpTwinJ::new(case.single, &case.datasets) } else { None },
             bts: if case.single { vec![0] } else { vec![] },
             next_tag: 1,
+        }
+    }
+
+    /// The same request through the shipped HTTP client (real URL formats, bodies, decoding; simulated
+    /// transport) against the real handlers over its own state: its answer must be the in-process answer.
+    #[cfg(shadow_http)]
+    fn http_client_twin(&mut self, op: &Op<JOrderSpec>, mine: String) {
+        use crate::exec::block_on;
+        use crate::threads::shadow_jura::jurav1_client::JuraClient;
+        let Some(mut hc) = self.hc.take() else { return };
+        let c = &mut hc.client;
+        let (what, theirs): (&str, String) = match op {
+            Op::Init { dataset, .. } => ("init", format!("{:?}", block_on(c.init(dataset.clone())).map(|r| r.backtest_id).map_err(|_| 400))),
+            Op::Insert { bt, order, .. } => ("insert_order", if block_on(c.insert_order(order.to_sut(), *bt)).is_ok() { "Ok" } else { "rejected" }.to_string()),
+            Op::Delete { bt, asset, id, .. } => ("delete_order", if block_on(c.delete_order(*asset, *id, *bt)).is_ok() { "Ok" } else { "rejected" }.to_string()),
+            Op::Tick { bt, .. } => ("tick", match block_on(c.tick(*bt)) {
+                Ok(r) => j_tick_text(r.has_next, &r.executed_trades, &r.inserted_orders),
+                Err(_) => "rejected".to_string(),
+            }),
+            Op::Fetch { bt, .. } => ("fetch_quotes", match block_on(c.fetch_quotes(*bt)) {
+                Ok(r) => crate::e1j::canon_quotes(&r.quotes),
+                Err(_) => "rejected".to_string(),
+            }),
+            Op::Info { bt, .. } => ("info", match block_on(c.info(*bt)) {
+                Ok(r) => format!("{} {}", r.version, r.dataset),
+                Err(_) => "rejected".to_string(),
+            }),
+            Op::Now { .. } => ("now", mine.clone()),
+        };
+        for l in crate::simhttp::take_log() {
+            ev!(self.ctx, "http-client {l}");
+        }
+        self.hc = Some(hc);
+        self.ctx.bump("probe_http_client_twin_requests");
+        if !texts_close(&mine, &theirs) {
+            let msg = format!("the HTTP client (jurav1_client::Client over the real handlers) answered {what} differently from the in-process AppState after the same history: AppState {mine}, client {theirs} (op {:?})", op);
+            self.ctx.fail("C20", "http-client-diverges", what, msg.clone());
+            self.ctx.fail("C08", "http-client-diverges", what, msg);
         }
     }
 
@@ -870,6 +988,8 @@ impl TwinJ {
                     rule!(self.ctx, "C20", "body", "init", a == b, "init: in-process id {a}, HTTP id {b}");
                     self.bts.push(*a);
                 }
+                #[cfg(shadow_http)]
+                self.http_client_twin(op, format!("{:?}", d.as_ref().map(|x| *x).map_err(|_| 400)));
             }
             Op::Insert { bt, order, .. } => {
                 let req = crate::server::JInsertReq { order: order.to_sut() };
@@ -888,16 +1008,25 @@ impl TwinJ {
                 let j = self.json.insert_raw(&body, *bt);
                 ev!(self.ctx, "insert bt={bt} {body} -> direct {:?} json {:?}", d.as_ref().map_err(|e| e.status), j.as_ref().map_err(|e| e.status));
                 status_rule(&mut self.ctx, "insert_order", d.is_ok(), &j);
+                #[cfg(shadow_http)]
+                self.http_client_twin(op, if d.is_ok() { "Ok" } else { "rejected" }.to_string());
             }
             Op::Delete { bt, asset, id, .. } => {
                 let d = self.direct.delete(*asset, *id, *bt);
                 let j = self.json.delete(*asset, *id, *bt);
                 ev!(self.ctx, "delete bt={bt} asset={asset} id={id} -> direct {:?} json {:?}", d.as_ref().map_err(|e| e.status), j.as_ref().map_err(|e| e.status));
                 status_rule(&mut self.ctx, "delete_order", d.is_ok(), &j);
+                #[cfg(shadow_http)]
+                self.http_client_twin(op, if d.is_ok() { "Ok" } else { "rejected" }.to_string());
             }
             Op::Tick { bt, .. } => {
                 let d = self.direct.tick(*bt);
                 let j = self.json.tick(*bt);
+                #[cfg(shadow_http)]
+                self.http_client_twin(op, match &d {
+                    Ok(r) => j_tick_text(r.has_next, &r.fills, &r.orders),
+                    Err(_) => "rejected".to_string(),
+                });
                 ev!(
                     self.ctx, "tick bt={bt} -> direct {:?} json {:?}",
                     d.as_ref().map(|r| (r.has_next, r.fills.len(), r.orders.len())).map_err(|e| e.status),
@@ -943,6 +1072,11 @@ impl TwinJ {
                         }
                     }
                 }
+                #[cfg(shadow_http)]
+                self.http_client_twin(op, match &d {
+                    Ok(r) => crate::e1j::canon_quotes(&r.quotes),
+                    Err(_) => "rejected".to_string(),
+                });
             }
             Op::Info { bt, .. } => {
                 let d = self.direct.info(*bt);
@@ -952,6 +1086,11 @@ impl TwinJ {
                 if let (Ok(a), Ok(b)) = (&d, &j) {
                     rule!(self.ctx, "C20", "body", "info", a.version == b.version && a.dataset == b.dataset, "info: in-process ({}, {}) vs HTTP ({}, {})", a.version, a.dataset, b.version, b.dataset);
                 }
+                #[cfg(shadow_http)]
+                self.http_client_twin(op, match &d {
+                    Ok(r) => format!("{} {}", r.version, r.dataset),
+                    Err(_) => "rejected".to_string(),
+                });
             }
             Op::Now { .. } => {}
         }
